@@ -1142,10 +1142,12 @@ func genSizes(c *ctx, emit func(string)) {
 	emit("#zeroreads 3000")
 	// WAL level (every tier, ~7 s): payloads whose ENCODING crosses the limit, and a batch
 	// above 64 MiB that must survive a reopen of the unsealed tail
-	for _, k := range []string{"exact", "data-8", "data", "ext", "batch"} {
+	for _, k := range []string{"exact", "data-8", "data", "ext", "batch", "batch-sealing"} {
 		emit("#walbig " + k)
 	}
 }
+
+var walBigRelease = func() {}
 
 // execWalBig: through wal.StoreLogs / GetLog / Close / Open on an in-memory directory:
 // whatever is acknowledged must be readable, before and after a reopen.
@@ -1159,9 +1161,44 @@ func execWalBig(c *ctx, line string) (obs string) {
 	}()
 	kind := strings.Split(line, " ")[1]
 	cfs := newCrashFS()
+	segSize := 128 << 20
+	if kind == "batch-sealing" {
+		// a batch far larger than the segment (and than segment + MaxEntrySize) fills and seals the
+		// tail; the WAL is closed BEFORE the background rotation runs (the rotation goroutine is
+		// held at its first schedule point until Close has returned), so the next Open recovers
+		// a tail that reaches far beyond its size limit
+		segSize = 1 << 20
+		held := make(chan struct{})
+		wal.SetVerifHook(func(point string) {
+			if point == "runRotate.received" {
+				select {
+				case <-held:
+				case <-time.After(60 * time.Second):
+				}
+			}
+		})
+		defer wal.SetVerifHook(nil)
+		defer func() {
+			select {
+			case <-held:
+			default:
+				close(held)
+			}
+		}()
+		defer func(h chan struct{}) { _ = h }(held)
+		walBigRelease = func() {
+			select {
+			case <-held:
+			default:
+				close(held)
+			}
+		}
+	} else {
+		walBigRelease = func() {}
+	}
 	open := func() (*wal.WAL, error) {
 		return wal.Open("d", wal.WithSegmentFiler(segment.NewFiler("d", cfs)), wal.WithMetaStore(&cmeta{fs: cfs}),
-			wal.WithSegmentSize(128<<20), wal.WithLogger(hclog.NewNullLogger()))
+			wal.WithSegmentSize(segSize), wal.WithLogger(hclog.NewNullLogger()))
 	}
 	w, err := open()
 	if err != nil {
@@ -1201,6 +1238,8 @@ func execWalBig(c *ctx, line string) (obs string) {
 		logs = []*raft.Log{mk(1, segMaxEntry, 0)}
 	case "ext":
 		logs = []*raft.Log{mk(1, 48<<20, 17<<20)}
+	case "batch-sealing":
+		logs = []*raft.Log{mk(1, 23<<20, 0), mk(2, 23<<20, 0), mk(3, 23<<20, 0)}
 	default:
 		logs = []*raft.Log{mk(1, 22<<20, 0), mk(2, 22<<20, 0), mk(3, 22<<20, 0)}
 	}
@@ -1212,8 +1251,8 @@ func execWalBig(c *ctx, line string) (obs string) {
 			c.witness("C15", "max-refused", fmt.Sprintf("entry whose encoding is exactly MaxEntrySize refused: %v", err), line)
 			return "fail"
 		}
-		if kind == "batch" {
-			c.witness("C15", "max-refused", fmt.Sprintf("batch of three 22 MiB entries refused: %v", err), line)
+		if kind == "batch" || kind == "batch-sealing" {
+			c.witness("C15", "max-refused", fmt.Sprintf("batch of three 22/23 MiB entries refused: %v", err), line)
 			return "fail"
 		}
 		return "refused"
@@ -1233,6 +1272,7 @@ func execWalBig(c *ctx, line string) (obs string) {
 		return "fail"
 	}
 	w.Close()
+	walBigRelease() // batch-sealing: only now may the rotation goroutine go on (it finds the WAL closed)
 	w2, err := open()
 	if err != nil {
 		c.witness("C15", "acked-unreadable", fmt.Sprintf("Open fails after acknowledging a %s case: %v", kind, err), line)
